@@ -1,4 +1,4 @@
-import PystogVerif.Proofs.Merge
+import PystogVerif.RealRint
 import PystogVerif.Model.Config
 import Mathlib.Algebra.Order.Floor.Ring
 import Mathlib.Tactic.Positivity
